@@ -231,8 +231,9 @@ theorem C10_counts_text_chain_group_partial (valid : Str → Bool) (f : F) (hwf 
     `)n` and the blanks, and for `)nX` the look-behind word spans `)n` and the first species of
     `X`); pass 4 rewrites `)n + (` into `) * n + (` and `)n␣*X` into `) * n + X` (its look-ahead
     run `[^+*)\s]*` ends inside the next unit).
-    Still missing for the full statement: nested groups, an explicit ` + `
-    directly next to a parenthesis, a trailing explicit ` * n`, left-nested ASTs of the same text. -/
+    Units may also be joined by an explicit ` + ` (`(OH)2 + Na`, `Na{23} + (OH)2`).
+    Still missing for the full statement: nested groups, a trailing explicit ` * n`, left-nested
+    ASTs of the same text. -/
 theorem C10_preprocess_units_partial (f : F) (hf : f.units) (hs : f.spAll SpeciesShape) :
     preprocess (render f) = renderExplicit f :=
   (preprocess_units f hf hs).1
@@ -454,6 +455,13 @@ example : exAmm.wf = true ∧ exAmm.units ∧ String.ofList (render exAmm) = "(N
    by decide +kernel, by decide +kernel, by decide +kernel⟩
 example : substanceOf (fun _ => true) (render exAmm) =
     some [(['N'], 2), (['H'], 8), (['S'], 1), (['O'], 4)] := by decide +kernel
+/-- units joined by an explicit ` + `: `Fe + (OH)2 + Na` -/
+def exPlus : F :=
+  .plus (.sp ['F', 'e']) (.plus (.count (.group (.seq 0 (.sp ['O']) (.sp ['H']))) 2) (.sp ['N', 'a']))
+example : exPlus.wf = true ∧ exPlus.units ∧ String.ofList (render exPlus) = "Fe + (OH)2 + Na" ∧
+    String.ofList (renderExplicit exPlus) = "Fe + (O + H) * 2 + Na" :=
+  ⟨by decide, Or.inr ⟨Or.inl trivial, Or.inr ⟨Or.inr ⟨trivial, trivial⟩, Or.inl trivial, by decide⟩, by decide⟩,
+   by decide +kernel, by decide +kernel⟩
 /-- … and evaluating the model pipeline on that text gives the same as the theorem says -/
 example : substanceOf (fun _ => true) (render exUnits) =
     some [(['C', 'a'], 1), (['O'], 8), (['H'], 14), (['C', 'l'], 1)] := by decide +kernel
